@@ -299,6 +299,13 @@ fn load_test_bundles(dir: &str, consts: &ConsensusConstants, max_total: u64, lim
     out
 }
 
+fn load_named_bundle(dir: &str, stem: &str, consts: &ConsensusConstants) -> Option<PB> {
+    let p = std::fs::read_dir(dir).ok()?.filter_map(|e| e.ok()).map(|e| e.path()).find(|p| p.file_name().is_some_and(|n| n.to_string_lossy().starts_with(stem)))?;
+    let buf = std::fs::read(&p).ok()?;
+    let bundle = catch(std::panic::AssertUnwindSafe(|| SpendBundle::from_bytes(&buf))).ok()?.ok()?;
+    measure(format!("t{stem}"), "T", bundle, vec![], false, consts).ok()
+}
+
 fn blst_sum(sigs: &[[u8; 96]]) -> Option<[u8; 96]> {
     let mut acc = blst::blst_p2::default();
     for s in sigs {
@@ -392,6 +399,7 @@ pub fn run_history(out: &mut Out, kind: Kind, consts: &ConsensusConstants, arena
     // every attempt so far (for the twin builders) and the accepted ones
     let mut attempts: Vec<(Vec<usize>, u64)> = Vec::new();
     let mut accepted: Vec<(Vec<usize>, u64)> = Vec::new();
+    let mut reached_ix: Vec<usize> = Vec::new(); // bundles of the attempts that got past the two early exits
     let mut block_cost: u64 = 20;
     let mut dead = false;
     let mut dones = 0usize;
@@ -445,6 +453,9 @@ pub fn run_history(out: &mut Out, kind: Kind, consts: &ConsensusConstants, arena
                     if st.want == exit { stats.hit += 1 } else { stats.miss += 1 }
                 }
                 attempts.push((st.batch.clone(), declared));
+                if exit == "accept" || exit == "after" {
+                    reached_ix.extend(st.batch.iter().copied());
+                }
                 if done {
                     dones += 1;
                 }
@@ -495,9 +506,23 @@ pub fn run_history(out: &mut Out, kind: Kind, consts: &ConsensusConstants, arena
                 (Kind::Interned, Some(t)) => num(interned_vbytes_sx(t)),
                 (Kind::Interned, None) => json!(-1),
             };
-            // signature: raw blst sum of the signatures of the batches reported as added
-            let sigs: Vec<[u8; 96]> = acc_ix.iter().map(|i| arena[*i].sig).collect();
-            ev["sig_eq_added"] = json!(blst_sum(&sigs).is_some_and(|s| s == sig.to_bytes()));
+            // signature: which offered bundles does it aggregate? Candidates (raw blst sums): the batches reported as
+            // added; those plus every batch that reached the serializer; every batch offered. The specification
+            // compares the ids with its own signature bag.
+            let ids_of = |ix: &[usize]| -> Vec<String> { ix.iter().map(|i| arena[*i].id.clone()).collect() };
+            let sum_of = |ix: &[usize]| blst_sum(&ix.iter().map(|i| arena[*i].sig).collect::<Vec<_>>());
+            let all_ix: Vec<usize> = attempts.iter().flat_map(|(b, _)| b.iter().copied()).collect();
+            let sigb = sig.to_bytes();
+            ev["sig_eq_added"] = json!(sum_of(&acc_ix).is_some_and(|s| s == sigb));
+            ev["sig_ids"] = if sum_of(&acc_ix).is_some_and(|s| s == sigb) {
+                json!(ids_of(&acc_ix))
+            } else if sum_of(&reached_ix).is_some_and(|s| s == sigb) {
+                json!(ids_of(&reached_ix))
+            } else if sum_of(&all_ix).is_some_and(|s| s == sigb) {
+                json!(ids_of(&all_ix))
+            } else {
+                json!(["?"])
+            };
             ev["sig_verify"] = if all_synth {
                 let pairs: Vec<(PublicKey, Vec<u8>)> = acc_ix.iter().flat_map(|i| arena[*i].pkm.iter().cloned()).collect();
                 let ok = catch(std::panic::AssertUnwindSafe(|| chia_bls::aggregate_verify(&sig, pairs.iter().map(|(p, m)| (p, m.as_slice()))))).unwrap_or(false);
@@ -581,7 +606,16 @@ pub fn record(args: &Args) {
             for s in cse["steps"].as_array().cloned().unwrap_or_default() {
                 let mut batch = Vec::new();
                 for cl in s["b"].as_array().cloned().unwrap_or_default() {
-                    arena.push(maker.synthetic(&mut r, cl.as_str().unwrap_or("A")));
+                    let name = cl.as_str().unwrap_or("A");
+                    // replay files name test bundles by the start of their file name ("t83bc105442")
+                    let from_file = match (name.strip_prefix('t'), args.get("bundles")) {
+                        (Some(stem), Some(dir)) if stem.len() >= 8 => load_named_bundle(dir, stem, &consts),
+                        _ => None,
+                    };
+                    arena.push(match from_file {
+                        Some(pb) => pb,
+                        None => maker.synthetic(&mut r, name),
+                    });
                     batch.push(arena.len() - 1);
                 }
                 steps.push(Step { batch, label: s["lbl"].as_str().unwrap_or("truthful").to_string(), want: s["exit"].as_str().unwrap_or("").to_string() });
